@@ -64,7 +64,8 @@ class RecordingDevice:
         self.world = world
         self.fails = fails
         self.fill = fill
-        self.error = RuntimeError("device failure")
+        kinds = {"TypeError": TypeError, "OSError": OSError, "KeyError": KeyError}
+        self.error = kinds.get(fails, RuntimeError)("device failure")
 
     def execute(self, cmd, en_raw_sense=False):
         self.world.trace.append(("device.execute", cmd, en_raw_sense, cmd.cdb, cmd.datain, cmd.dataout))
@@ -227,7 +228,8 @@ class FacadeUnit(Unit):
                 base = dict(v, set=s, how=list(how))
                 _, opts = self.optional_params(base)
                 for sub in self.subsets(opts, tier):
-                    for fails in (False, True) if sub == () else (False,):
+                    # the device may fail with any exception type (the transports raise their own classes)
+                    for fails in (False, "RuntimeError", "TypeError", "OSError") if sub == () else (False,):
                         out.append(dict(base, given=list(sub), fails=fails))
         return out
 
@@ -238,7 +240,7 @@ class FacadeUnit(Unit):
         if "sa" in case:
             s += ",sa=%d" % case["sa"]
         if case["fails"]:
-            s += ",device-fails"
+            s += ",device-fails-with-%s" % case["fails"]
         return s
 
     def interp_config(self, case):
